@@ -34,7 +34,13 @@ def create_sites(ctx: Ctx, funcs=None) -> List[Tuple[Node, Optional[ast.expr], O
             arg = ctx.vals.resolve(n.func, arg)  # `coro = self._spawner(...); create_task(coro)`
         targets = None
         if isinstance(arg, ast.Call):
-            cal = ctx.an.scope(n.func).callee(arg)
+            if (id(arg), id(n.env)) in ctx.an.partial_syn:
+                # `factory()` with factory = partial(self._spawner, ...): the coroutine of that spawner, with the frozen arguments
+                fr_, _env = ctx.an.partial_frame[(id(arg), id(n.env))]
+                arg = ctx.an.partial_syn[(id(arg), id(n.env))]
+                cal = ctx.an.scope(fr_).callee(arg)
+            else:
+                cal = ctx.an.scope(n.func).callee(arg)
             if cal.kind == "pkg":
                 targets = cal.targets
         out.append((n, arg, targets))
@@ -92,13 +98,22 @@ def r_who_create_task(ctx: Ctx, rule="R01.2"):
     funcs = [f for f in ctx.prog.all_functions() if ctx.in_pool(f) or f.module.name == "pool"]
     sites = create_sites(ctx, funcs)
     n_wrap = n_spawn = 0
+    # (a creation site shared by several requests - a helper given the coroutine, or a factory for it - counts once per spawner)
+    per_site: Dict[int, Set[str]] = {}
+    for m in ctx.all_nodes(lambda m: ctx.is_ext_call(m, *CREATE_TASK), funcs):
+        a_ = coro_arg(m.ast)
+        syn_ = ctx.an.partial_syn.get((id(a_), id(m.env))) if a_ is not None else None
+        if syn_ is not None:
+            cal_ = ctx.an.scope(ctx.an.partial_frame[(id(a_), id(m.env))][0]).callee(syn_)
+            if cal_.kind == "pkg":
+                per_site.setdefault(id(m.ast), set()).update(t.qual for t in cal_.targets)
     for n, arg, targets in sites:
         if targets and any(t.name == "_task_wrapper" for t in targets):
             n_wrap += 1
             rep.ob(rule, "pool tasks are created only inside _start_task", ctx.hosts_of(n) <= {"_start_task"}, node=n,
                    detail=f"created in {n.func.short}")
-        elif targets and all(is_spawner(ctx, t) for t in targets):
-            n_spawn += 1
+        elif targets and all(is_spawner(ctx, t) for t in targets) and all(is_spawner(ctx, ctx.prog.functions[q]) for q in per_site.get(id(n.ast), set()) if q in ctx.prog.functions):
+            n_spawn += max(1, len(per_site.get(id(n.ast), set())))
             rep.ob(rule, "spawner task created for a spawner coroutine", True, node=n)
         elif targets:
             rep.ob(rule, "task created for a package coroutine that neither wraps a pool task nor spawns through _start_task", "info", node=n,
